@@ -18,7 +18,7 @@ Section RenameProofs.
 
   (* 1. every name field carries its new name, nothing else changes (by computation) *)
   Theorem rename_fields names g :
-    let h := rename_demes names g in
+    let h := rename_core names g in
     g_demes h = map (deme_rename names) (g_demes g) /\
     g_migs h = map (mig_rename names) (g_migs g) /\
     g_pulses h = map (pulse_rename names) (g_pulses g) /\
@@ -236,7 +236,7 @@ Section RenameProofs.
   Qed.
 
   Lemma names_rename names g :
-    names_of (rename_demes names g) = map (rn names) (names_of g).
+    names_of (rename_core names g) = map (rn names) (names_of g).
   Proof. unfold names_of. simpl. rewrite !map_map. reflexivity. Qed.
 
   Lemma find_rename names S ds a :
@@ -252,7 +252,7 @@ Section RenameProofs.
 
   Lemma find_deme_rename names g a s :
     InjOn (rn names) (names_of g) -> find_deme g a = Some s ->
-    find_deme (rename_demes names g) (rn names a) = Some (deme_rename names s).
+    find_deme (rename_core names g) (rn names a) = Some (deme_rename names s).
   Proof.
     intros Hi H. unfold find_deme. simpl.
     rewrite (find_rename names (names_of g)).
@@ -267,7 +267,7 @@ Section RenameProofs.
 
   Lemma ValidMig_rename names g m :
     InjOn (rn names) (names_of g) -> ValidMig g m ->
-    ValidMig (rename_demes names g) (mig_rename names m).
+    ValidMig (rename_core names g) (mig_rename names m).
   Proof.
     intros Hi V. destruct (validmig_names _ _ V) as [Hs Hd].
     destruct V as [H1 H2 H3 H4 H5 H6]. constructor; simpl.
@@ -317,7 +317,7 @@ Section RenameProofs.
   Lemma ingress_rename names g b t :
     InjOn (rn names) (names_of g) -> MigNames (names_of g) (g_migs g) ->
     In b (names_of g) ->
-    ingress (rename_demes names g) (rn names b) t = ingress g b t.
+    ingress (rename_core names g) (rn names b) t = ingress g b t.
   Proof.
     intros Hi Hn Hb. unfold ingress. simpl. rewrite map_map. f_equal.
     apply map_ext_in. intros s Hs. simpl.
@@ -327,7 +327,7 @@ Section RenameProofs.
 
   Lemma IngressOK_rename names g :
     InjOn (rn names) (names_of g) -> MigNames (names_of g) (g_migs g) ->
-    IngressOK g -> IngressOK (rename_demes names g).
+    IngressOK g -> IngressOK (rename_core names g).
   Proof.
     intros Hi Hn H d t Hd Ht Ht0. simpl in Hd. apply in_map_iff in Hd.
     destruct Hd as (d0 & Ed & Hd0). subst d. simpl.
@@ -340,7 +340,7 @@ Section RenameProofs.
 
   Lemma ValidPulse_rename names g p :
     InjOn (rn names) (names_of g) -> ValidPulse g p ->
-    ValidPulse (rename_demes names g) (pulse_rename names p).
+    ValidPulse (rename_core names g) (pulse_rename names p).
   Proof.
     intros Hi V. destruct (validpulse_names _ _ V) as [Hd Hs].
     destruct V as [H1 H2 H3 H4 H5 H6 H7 H8 H9]. constructor; simpl.
@@ -387,13 +387,13 @@ Section RenameProofs.
 
   Lemma rename_index names g :
     Valid g -> GoodMap names g ->
-    g_index (rename_demes names g) = index_from 0 (map (deme_rename names) (g_demes g)).
+    g_index (rename_core names g) = index_from 0 (map (deme_rename names) (g_demes g)).
   Proof.
     intros V G. simpl. apply build_index_spec. apply rename_nodup; assumption.
   Qed.
 
   (* 2. the result is a valid graph (in particular its name index mirrors its deme list) *)
-  Theorem rename_valid names g : Valid g -> GoodMap names g -> Valid (rename_demes names g).
+  Theorem rename_valid names g : Valid g -> GoodMap names g -> Valid (rename_core names g).
   Proof.
     intros V G. pose proof (good_inj _ _ G) as Hi.
     constructor.
@@ -422,8 +422,8 @@ Section RenameProofs.
   (* 3. lookup and membership by each new name give the right deme; names no longer used fail *)
   Theorem rename_lookup names g d :
     Valid g -> GoodMap names g -> In d (g_demes g) ->
-    lookup (rename_demes names g) (rn names (d_name d)) = Ok (deme_rename names d) /\
-    contains (rename_demes names g) (rn names (d_name d)) = true.
+    lookup (rename_core names g) (rn names (d_name d)) = Ok (deme_rename names d) /\
+    contains (rename_core names g) (rn names (d_name d)) = true.
   Proof.
     intros V G Hd. unfold lookup, contains. rewrite rename_index by assumption.
     destruct (assoc_index_from (map (deme_rename names) (g_demes g)) 0 (deme_rename names d))
@@ -435,7 +435,7 @@ Section RenameProofs.
 
   Theorem rename_lookup_absent names g x :
     Valid g -> GoodMap names g -> ~ In x (map (rn names) (names_of g)) ->
-    lookup (rename_demes names g) x = Err KeyErr /\ contains (rename_demes names g) x = false.
+    lookup (rename_core names g) x = Err KeyErr /\ contains (rename_core names g) x = false.
   Proof.
     intros V G Hx. unfold lookup, contains. rewrite rename_index by assumption.
     rewrite assoc_index_from_none; [split; reflexivity|].
@@ -451,7 +451,7 @@ Section RenameProofs.
   Theorem rename_back names inv g :
     Valid g -> GoodMap names g ->
     (forall a, In a (names_of g) -> rn inv (rn names a) = a) ->
-    rename_demes inv (rename_demes names g) = g.
+    rename_core inv (rename_core names g) = g.
   Proof.
     intros V G Hinv.
     assert (Ed : map (deme_rename inv) (map (deme_rename names) (g_demes g)) = g_demes g).
@@ -470,7 +470,7 @@ Section RenameProofs.
       destruct p as [ss d t pr]. unfold pulse_rename. simpl in *. f_equal.
       - rewrite map_map. apply map_id_in. intros a Ha. apply Hinv, Hs, Ha.
       - apply Hinv, Hd. }
-    unfold rename_demes at 1. simpl. rewrite Ed, Em, Ep.
+    unfold rename_core at 1. simpl. rewrite Ed, Em, Ep.
     rewrite build_index_spec by (apply valid_nodup; exact V).
     rewrite <- (v_index _ V). destruct g; reflexivity.
   Qed.
